@@ -19,6 +19,8 @@ import math
 import numpy
 
 EPS = float(numpy.finfo(float).eps)
+EPS32 = float(numpy.finfo(numpy.float32).eps)
+PREC32 = EPS32 / EPS      # factor by which every tolerance widens for values whose own source array was float32
 REL_STAT = 1e-12
 
 
@@ -66,26 +68,30 @@ def keyclass(st, mag=0.0, k=0):
     return "regular column"
 
 
-def tol_entry(raw, mag, k):
-    """Elementwise round-trip tolerance after k store/unscale cycles (array in, array out)."""
-    return 4.0 * EPS * (k + 1) * (numpy.abs(numpy.nan_to_num(raw, nan=0.0)) + 2.0 * mag)
+def tol_entry(raw, mag, k, roweps=None):
+    """Elementwise round-trip tolerance after k store/unscale cycles (array in, array out).
+
+    roweps: (n,1) array with the machine epsilon of the array each taxon's raw values came from (a float64 taxon must
+    come back to float64 rounding error whatever it was combined with; a float32 taxon to float32 rounding error)."""
+    e = EPS if roweps is None else roweps
+    return 4.0 * e * (k + 1) * (numpy.abs(numpy.nan_to_num(raw, nan=0.0)) + 2.0 * mag)
 
 
-def tol_stat(name, st, mag, k):
-    t1 = REL_STAT * (k + 1) * mag
+def tol_stat(name, st, mag, k, prec=1.0):
+    t1 = REL_STAT * prec * (k + 1) * mag
     if name == "tvar":
         return 2.0 * st["tstd"] * t1 + t1 * t1
     return t1
 
 
-def compare_matrix(got, raw, mags, k):
+def compare_matrix(got, raw, mags, k, roweps=None):
     """Round-trip comparison of a whole matrix.  Returns (mask_ok, values_ok, worst err/tol ratio, first bad (i,j))."""
     got = numpy.asarray(got, dtype=float)
     if got.shape != raw.shape:
         return False, False, math.inf, None
     mr = numpy.isnan(raw); mg = numpy.isnan(got)
     mask_ok = bool(numpy.array_equal(mr, mg))
-    tol = tol_entry(raw, numpy.asarray(mags)[None, :], k)
+    tol = tol_entry(raw, numpy.asarray(mags)[None, :], k, roweps)
     both = ~mr & ~mg
     err = numpy.where(both, numpy.abs(numpy.where(both, got, 0.0) - numpy.where(both, raw, 0.0)), 0.0)
     bad = both & ~(err <= tol)
